@@ -120,7 +120,10 @@ pub fn run(ctx: &mut Ctx) {
             0 | 1 => None,
             2 => Some("".into()),
             3 => Some("Debug, Clone".into()),
-            _ => Some(rng.pick(&["Deserialize", " ", "Debug,  PartialEq ", "serde::Serialize", "A(B)", "+Debug", "+", "#[derive(Debug)]", "#[x]", "Debug, +Clone", "@file", "=Debug"]).to_string()),
+            _ if i % 4 == 3 && rng.chance(1, 3) => Some("@file".to_string()), // with a file named `file` in the working directory (below)
+            _ => Some(rng.pick(&["Deserialize", " ", "Debug,  PartialEq ", "serde::Serialize", "A(B)", "+Debug", "+", "#[derive(Debug)]", "#[x]", "Debug, +Clone", "@file", "=Debug",
+                                // realistic trait lists (round 7: a list containing Ord / PartialOrd switched the sort order)
+                                "Debug, Clone, PartialEq, Eq, PartialOrd, Ord", "Ord", "PartialOrd, Deserialize", "Debug,Hash,Default,Copy", "Eq, Hash, Ord , Serialize"]).to_string()),
         };
         let sort = *rng.pick(&[None, Some(false), Some(true)]); // Some(true) = name
         // ---- the property itself, from the library called directly
@@ -161,6 +164,15 @@ pub fn run(ctx: &mut Ctx) {
             _ => Some(dir.join("no-such-dir").join("out.rs").to_string_lossy().to_string()),
         };
         let mut cmd = Command::new(&bin);
+        if i % 4 == 3 {
+            // files named like flag values in the working directory (round 7: `--derive @file` read the
+            // list from a file of that name): a flag value may never be looked up as a path
+            for n in ["file", "Debug", "name", "unsorted", "quick-xml-de", "serde-xml-rs", "Deserialize", "Ord"] {
+                let _ = std::fs::write(dir.join(n), "Hash\n");
+            }
+            cmd.current_dir(&dir);
+            hist.add("cwd:files-named-like-flag-values");
+        }
         let mut argv: Vec<String> = vec![];
         if let Some(p) = parser {
             argv.push(if rng.chance(1, 2) { "--parser".into() } else { "-p".into() });
